@@ -245,6 +245,49 @@ Arguments obj A : clear implicits.
 Arguments store A : clear implicits.
 
 (* ------------------------------------------------------------------------------------------------ *)
+(* Histories of chunk-level operations on a name-addressed store (NPY files, S3 objects)               *)
+
+Section Hist.
+Context {A : Type}.
+
+Inductive hop := HPut (arr : str) (sl : slices) (dt : Z) (cshape : list Z) (data : list A) | HMark (arr : str).
+
+(* put_chunk_noraise / mark_complete *)
+Definition apply_hop (st : store A) (op : hop) : store A :=
+  match op with
+  | HPut arr sl dt cshape data =>
+      match put_chunk st arr sl dt false cshape data with Ok st' => st' | Err _ => st end
+  | HMark arr => mark_complete st arr
+  end.
+Definition run_hist (st : store A) (ops : list hop) : store A := fold_left apply_hop ops st.
+
+(* SPEC: the last put_chunk in the history that was accepted (chunk shape = slice shape) and addressed the chunk name
+   of (arr, starts) *)
+Definition last_put_step (arr : str) (starts : list Z) (acc : option (Z * list Z * list A)) (op : hop)
+  : option (Z * list Z * list A) :=
+  match op with
+  | HPut a s dt cshape data =>
+      if zs_eq_dec cshape (slice_shape s)
+      then (if str_eq_dec a arr then (if zs_eq_dec (map fst s) starts then Some (dt, cshape, data) else acc) else acc)
+      else acc
+  | HMark _ => acc
+  end.
+Definition last_put (arr : str) (starts : list Z) (ops : list hop) : option (Z * list Z * list A) :=
+  fold_left (last_put_step arr starts) ops None.
+(* what get_chunk(arr, sl, dt) must answer given that witness: shape and dtype of the request are checked against it *)
+Definition hist_answer (dt : Z) (sl : slices) (w : option (Z * list Z * list A)) (dflt : res (list Z * list A))
+  : res (list Z * list A) :=
+  match w with
+  | Some (dt', sh, data) =>
+      if zs_eq_dec sh (slice_shape sl) then (if Z.eq_dec dt' dt then Ok (sh, data) else Err EBadChunk) else Err EBadChunk
+  | None => dflt
+  end.
+Definition marked (arr : str) (ops : list hop) : bool :=
+  existsb (fun op => match op with HMark a => if str_eq_dec a arr then true else false | HPut _ _ _ _ _ => false end) ops.
+
+End Hist.
+
+(* ------------------------------------------------------------------------------------------------ *)
 (* _prune_chunks (per axis) and the pruned read                                                        *)
 
 (* slice(start, stop).indices(n) for a unit step, followed by dask's normalize_index (stop := max start stop) *)
